@@ -1260,6 +1260,30 @@ def run(ctx):
                   'ask the connection pool for host None, and its assertion error ends the crawl', rf.loc(rstarts[0].stmt))
     else:
         ck.ok('C09-D2', rf.qual, 'robots.txt is requested once (no redirect loop)')
+    # a listing may name a link without saying where it points (MLSD `type=symlink; name`): FileEntry.dest is None then.  The target
+    # handed to os.symlink is tested first, or TypeError is among what the handler around the call expects
+    ms = repo.func('wpull.processor.ftp:FTPProcessorSession._make_symlink')
+    from ..escape import guarded_truthy
+    mpm = U.parents(ms.node)
+    n_sl = 0
+    for c in U.calls(ms.node):
+        if (dotted(c.func) or '') != 'os.symlink' or not c.args:
+            continue
+        n_sl += 1
+        tgt = c.args[0]
+        tested = isinstance(tgt, ast.Name) and guarded_truthy(ms.node, tgt.id, c)
+        handled_te = False
+        for a in U.ancestors(c, mpm):
+            if isinstance(a, ast.Try) and any(c is x for b in a.body for x in ast.walk(b)):
+                for h in a.handlers:
+                    ts = [norm_text(t) for t in (h.type.elts if isinstance(h.type, ast.Tuple) else [h.type])] if h.type is not None else ['BaseException']
+                    if any(t in ('TypeError', 'Exception', 'BaseException') for t in ts):
+                        handled_te = True
+        ck.expect(tested or handled_te, 'C09-D2', ms.qual, 'the link target from the listing is tested before os.symlink (or TypeError handled)',
+                  'a listing line that names a symbolic link without a target (`type=symlink; name`) gives dest None: os.symlink(None, ...) raises '
+                  'TypeError outside every per-URL handler and the crawl stops', ms.loc(c))
+    if n_sl < 1:
+        raise AnalysisError('_make_symlink: os.symlink call not found')
     # the processors give a response its body only after the file writer had its say on the header (`if not response.body:
     # response.body = Body(...)`), and the writer may refuse with a per-URL error (--continue, server ignores Range).  The handlers
     # of that try therefore meet a response whose body is still None: every `<response>.body.<x>` in them is guarded by the body
